@@ -16,12 +16,12 @@ def chainIn (c : Cfg) (raw : Bool) (k : Nat) : List EStep → Map → ES → Cha
   | [], _, _, _, _ => []
   | s :: rest, m, st, acc, o =>
     stepIn raw st s ++
-      (match chainStep c raw k m st acc s o with
-       | .ok (m', st', acc') => chainIn c raw k rest m' st' acc' o
+      (match chainStep c raw k m st acc s (o.digit (c.R + 2)) with
+       | .ok (m', st', acc') => chainIn c raw k rest m' st' acc' (o.shift (c.R + 2))
        | .error _ => [])
 
-theorem chain_ledger (c : Cfg) (hR : 0 < c.R) (raw : Bool) (k : Nat) (o : Orc) :
-    ∀ (steps : List EStep) (m : Map) (st : ES) (acc : ChainAcc),
+theorem chain_ledger (c : Cfg) (hR : 0 < c.R) (raw : Bool) (k : Nat) :
+    ∀ (steps : List EStep) (o : Orc) (m : Map) (st : ES) (acc : ChainAcc),
       Inv c.R m → HandleOK m k st → ESWF raw st → C12.chainApplicable c raw k steps m st acc o →
       OkOrCap (chainLoop c raw k steps m st acc o) (fun r =>
         msIds r.1.ents + restOf r.2.1 r.2.2
@@ -29,23 +29,23 @@ theorem chain_ledger (c : Cfg) (hR : 0 < c.R) (raw : Bool) (k : Nat) (o : Orc) :
   intro steps
   induction steps with
   | nil =>
-    intro m st acc _ _ _ _
+    intro o m st acc _ _ _ _
     simp only [chainLoop, OkOrCap, chainIn, ms_nil]
     abel
   | cons s rest ih =>
-    intro m st acc h hok hwf happ
+    intro o m st acc h hok hwf happ
     unfold chainLoop
-    have hs := chainStep_ledger c hR raw k m st acc s o h hok hwf happ.1
-    have hc := chainStep_ok c hR raw k m st acc s o h hok happ.1
-    cases hr : chainStep c raw k m st acc s o with
+    have hs := chainStep_ledger c hR raw k m st acc s (o.digit (c.R + 2)) h hok hwf happ.1
+    have hc := chainStep_ok c hR raw k m st acc s (o.digit (c.R + 2)) h hok happ.1
+    cases hr : chainStep c raw k m st acc s (o.digit (c.R + 2)) with
     | error f => rw [hr] at hs; exact hs
     | ok r =>
       obtain ⟨m', st', acc'⟩ := r
       rw [hr] at hs hc
       simp only [OkOrCap] at hs hc
-      have hrec := ih m' st' acc' hc.1 hc.2 hs.1 (happ.2 m' st' acc' hr)
+      have hrec := ih (o.shift (c.R + 2)) m' st' acc' hc.1 hc.2 hs.1 (happ.2 m' st' acc' hr)
       dsimp only
-      cases hr2 : chainLoop c raw k rest m' st' acc' o with
+      cases hr2 : chainLoop c raw k rest m' st' acc' (o.shift (c.R + 2)) with
       | error f => rw [hr2] at hrec; exact hrec
       | ok q =>
         rw [hr2] at hrec
@@ -53,9 +53,9 @@ theorem chain_ledger (c : Cfg) (hR : 0 < c.R) (raw : Bool) (k : Nat) (o : Orc) :
         rw [hrec]
         simp only [chainIn, hr, ms_append]
         have h2 := hs.2
-        calc msIds m'.ents + (restOf st' acc' + ms (chainIn c raw k rest m' st' acc' o))
-            = (msIds m'.ents + restOf st' acc') + ms (chainIn c raw k rest m' st' acc' o) := by abel
-          _ = (msIds m.ents + (restOf st acc + ms (stepIn raw st s))) + ms (chainIn c raw k rest m' st' acc' o) := by rw [h2]
+        calc msIds m'.ents + (restOf st' acc' + ms (chainIn c raw k rest m' st' acc' (o.shift (c.R + 2))))
+            = (msIds m'.ents + restOf st' acc') + ms (chainIn c raw k rest m' st' acc' (o.shift (c.R + 2))) := by abel
+          _ = (msIds m.ents + (restOf st acc + ms (stepIn raw st s))) + ms (chainIn c raw k rest m' st' acc' (o.shift (c.R + 2))) := by rw [h2]
           _ = _ := by abel
 
 /-- the handle a lookup produces is well-formed: a raw handle carries no key, `entry(k)`'s does -/
@@ -77,7 +77,7 @@ theorem ledger_entry_chain (c : Cfg) (hR : 0 < c.R) (raw : Bool) (lh : Nat) (m :
           chainIn c raw k steps m (lookupState raw m k kid) { cost := { hashes := lh } } o)) := by
   unfold entryChain
   dsimp only
-  have hs := chain_ledger c hR raw k o steps m _ { cost := { hashes := lh } } h
+  have hs := chain_ledger c hR raw k steps o m _ { cost := { hashes := lh } } h
     (C12.lookup_handle_ok m k kid raw) (lookup_handle_wf m k kid raw) happ
   cases hr : chainLoop c raw k steps m (lookupState raw m k kid) { cost := { hashes := lh } } o with
   | error f => rw [hr] at hs; exact hs
